@@ -653,6 +653,178 @@ def block_nets(seed: int, tier: str):
         yield from emit(f"blk{seed}_{i}", norm(text))
 
 
+# ---- (3b) the SAME module with IDENTICAL stable motifs under both controller values: clean under one, motif-avoidant under the other ----
+SM_MODULES = {
+    "core": {"A": "(!A & !B) | C", "B": "(!A & !B) | C", "C": "A & B"},  # motif {A=B=C=1}, motif-avoidant cycle {000, 100, 010}
+    "xnor": {"P": "(P & Q) | (!P & !Q)", "Q": "(P & Q) | (!P & !Q)"},  # motif {P=Q=1}, motif-avoidant cycle {00, 01, 10}
+}
+# "escapes": extra disjuncts which, while the condition holds, let the motif-avoidant cycle drain into the stable motif without creating
+# a new trap space (so the stable motifs of the module are the same under both values of the condition)
+SM_ESCAPES = {
+    "core": [{"B": "A"}, {"A": "B"}, {"A": "B", "B": "A"}, {"B": "A & !C"}, {"A": "B & !C"}],
+    "xnor": [{"P": "Q"}, {"Q": "P"}, {"P": "Q", "Q": "P"}],
+}
+# controllers: (rules with the placeholders {g}, {h}; the two valuations of the controller variables that are visited)
+SM_CONTROLLERS = {
+    "source": ("{g}, {g}", lambda g, h: [{g: 0}, {g: 1}]),
+    "switch": ("{g}, {h}; {h}, {g}", lambda g, h: [{g: 0, h: 0}, {g: 1, h: 1}]),
+    "toggle": ("{g}, !{h}; {h}, !{g}", lambda g, h: [{g: 0, h: 1}, {g: 1, h: 0}]),
+}
+SM_NAMES = [("I", "J"), ("s", "t"), ("Z", "Y"), ("a0", "a1"), ("D", "E")]  # controller names sorting before / after / between the module's variables
+
+
+def same_motif_cond_net(module: str, escape: dict, positive: bool, controller: str = "source", names=("I", "J"), extra: str | None = None):
+    """(bnet, valuations): `module` whose motif-avoidant cycle gets an escape into the stable motif exactly while the controller
+    variable has the value `positive`; valuations = the controller valuations under which the module is to be compared."""
+    g, h = names
+    cond = g if positive else "!" + g
+    rules = dict(SM_MODULES[module])
+    for v, t in escape.items():
+        rules[v] = f"{rules[v]} | ({cond} & ({t}))"
+    ctext, vals = SM_CONTROLLERS[controller]
+    text = norm(ctext.format(g=g, h=h)) + "\n" + to_bnet(list(rules.items()))
+    if extra:
+        text = text + "\n" + norm(extra)
+    return norm(text), vals(g, h)
+
+
+def same_motif_cond_nets(seed: int, tier: str, accept=None):
+    """(name, bnet): a module that is clean under one value of a controller (source / bistable pair) and has a motif-avoidant attractor under
+    the other value, with the same variable set and the SAME stable motifs in both cases.  First the instance that revealed the shape, then
+    module x escape x condition polarity x controller kind x controller names (either node may get the smaller id), the same with a downstream /
+    independent extra module and with two sources, then seeded perturbations of the module (a random extra term guarded by the condition) of
+    which only those are kept that `accept(bnet, valuations)` confirms to have the shape (accept=None keeps all)."""
+    seen = set()
+
+    def emit(name, b, vals, always=False):
+        if b in seen or len(variables(b)) > 8:
+            return []
+        seen.add(b)
+        if always or accept is None or accept(b, vals):
+            return [(name, b)]
+        return []
+
+    # the instance that revealed the shape: clean under I = 0 (tested first), motif-avoidant under I = 1
+    yield from emit("smc_first", *same_motif_cond_net("core", {"B": "A"}, False), always=True)
+    for controller in SM_CONTROLLERS:
+        for module in SM_MODULES:
+            for k, esc in enumerate(SM_ESCAPES[module]):
+                for positive in (False, True):
+                    for names in (SM_NAMES if controller == "source" and k == 0 else SM_NAMES[:2]):
+                        yield from emit(f"smc_{controller}_{module}{k}_{int(positive)}_{names[0]}", *same_motif_cond_net(module, esc, positive, controller, names))
+    extras = {"down_switch": "X, Y; Y, X | {o}", "down_latch": "X, X & {o}", "indep_switch": "X, Y; Y, X", "indep_osc": "O, !O", "indep_source": "r, r"}
+    for module, outv in (("core", "C"), ("xnor", "P")):
+        for ename, extra in extras.items():
+            for positive in (False, True):
+                yield from emit(f"smc_{module}+{ename}_{int(positive)}", *same_motif_cond_net(module, SM_ESCAPES[module][0], positive, "source", ("I", "J"), extra.format(o=outv)))
+    # two sources: the escape is open under a conjunction / disjunction of them (all four valuations are compared)
+    for module in SM_MODULES:
+        for cond in ("I & J", "I | J", "!I & J", "!I | !J", "(I & !J) | (!I & J)"):
+            rules = dict(SM_MODULES[module])
+            for v, t in SM_ESCAPES[module][0].items():
+                rules[v] = f"{rules[v]} | (({cond}) & ({t}))"
+            b = norm("I, I; J, J") + "\n" + to_bnet(list(rules.items()))
+            yield from emit(f"smc2_{module}_{cond.replace(' ', '')}", b, [{"I": i, "J": j} for i in (0, 1) for j in (0, 1)])
+    # seeded perturbations
+    rng = random.Random(seed * 53 + 11)
+    kept = 0
+    for i in range(300 if tier == "quick" else 3000):
+        module = rng.choice(list(SM_MODULES))
+        mv = list(SM_MODULES[module])
+        controller = rng.choice(["source", "source", "switch", "toggle"])
+        g, h = rng.choice(SM_NAMES)
+        cond = rng.choice(["", "!"]) + g
+        rules = dict(SM_MODULES[module])
+        for v in rng.sample(mv, rng.choice([1, 1, 2])):
+            lits = [rng.choice(["", "!"]) + w for w in rng.sample(mv, rng.choice([1, 1, 2]))]
+            t = " & ".join(lits)
+            if rng.random() < 0.7:
+                rules[v] = f"{rules[v]} | ({cond} & {t})"
+            else:
+                rules[v] = f"({rules[v]}) & (!({cond}) | {t})" if rng.random() < 0.5 else f"({rules[v]}) & !({cond} & {t})"
+        ctext, vals = SM_CONTROLLERS[controller]
+        b = norm(norm(ctext.format(g=g, h=h)) + "\n" + to_bnet(list(rules.items())))
+        got = emit(f"smcr{seed}_{i}", b, vals(g, h))
+        kept += len(got)
+        yield from got
+        if kept >= (60 if tier == "quick" else 600):
+            break
+
+
+# ---- (3c) several independent switches (+ a downstream latch / oscillator): partial expansions under level / stack / size limits ------------
+LIMIT_NETS = {
+    "three_switches": norm("a1, a2; a2, a1; b1, b2; b2, b1; c1, c2; c2, c1"),
+    "two_switches": norm("a1, a2; a2, a1; b1, b2; b2, b1"),
+    "switches_latch": norm("a1, a2; a2, a1; b1, b2; b2, b1; z, z | (a1 & b1)"),
+    "switch_latch": norm("x1, x2; x2, x1; z, z | x1"),
+    "switch_osc": norm("a1, a2; a2, a1; p, !q | a1; q, p & !a1"),
+    "four_switches": switches(4),
+    "switch_toggle_latch": norm("a1, a2; a2, a1; u, !w; w, !u; z, z & (a1 | u)"),
+}
+
+
+def limit_net(seed: int) -> str:
+    """2-4 independent bistable modules (switch / toggle / set-reset latch pair) and, possibly, a downstream latch or a gated oscillator."""
+    rng = random.Random(seed)
+    k = rng.choice([2, 3, 3, 4])
+    rules, outs = [], []
+    for i in range(k):
+        x, y = f"m{i}a", f"m{i}b"
+        kind = rng.choice(["switch", "switch", "toggle", "asym"])
+        if kind == "switch":
+            rules += [(x, y), (y, x)]
+        elif kind == "toggle":
+            rules += [(x, f"!{y}"), (y, f"!{x}")]
+        else:
+            rules += [(x, f"{x} | {y}"), (y, f"{x} & {y}")]
+        outs.append(x)
+    r = rng.random()
+    if len(rules) <= 6 and r < 0.6:
+        lits = [rng.choice(["", "!"]) + o for o in rng.sample(outs, rng.choice([1, 2]))]
+        c = f" {rng.choice(['&', '|'])} ".join(lits)
+        if r < 0.4:
+            rules.append(("z", rng.choice([f"z | ({c})", f"z & ({c})"])))
+        else:
+            rules += [("p", f"!q | ({c})"), ("q", f"p & !({c})")]
+    return to_bnet(rules)
+
+
+def limit_nets(seed: int, tier: str):
+    for k, v in LIMIT_NETS.items():
+        yield (k, v)
+    for i in range(150 if tier == "quick" else 1500):
+        yield (f"lim{seed}_{i}", limit_net(seed * 6_007 + i))
+
+
+def limited_dfs_histories(max_level: int = 3, max_stack: int = 4):
+    """(prefix, final): an earlier limited expansion (level-limited bfs first), then a stack-limited dfs from the root.  Whatever the
+    combination, a True return of the final call claims that everything reachable from the root is expanded."""
+    out = [([["bfs", None, k, None]], ["dfs", None, s, None]) for k in range(max_level + 1) for s in range(max_stack + 1)]
+    for s in range(max_stack + 1):
+        out.append(([["dfs", None, (s + 1) % (max_stack + 1), None]], ["dfs", None, s, None]))  # repeated dfs calls with different stack limits
+        out.append(([["dfs", None, s, None]], ["dfs", None, s, None]))  # ... and with the same limit
+    for s in (0, 1, 2):
+        out.append(([["min", None, 3, False]], ["dfs", None, s, None]))
+        out.append(([["succ", 0], ["succ", 1], ["succ", 2]], ["dfs", None, s, None]))
+        out.append(([["bfs", None, None, 4]], ["dfs", None, s, None]))
+        out.append(([["aseeds", 3]], ["dfs", None, s, None]))
+        out.append(([["bfs", None, 1, None], ["dfs", None, s, None]], ["dfs", None, s, None]))
+    return out
+
+
+def limited_aseeds_histories(max_size: int = 8):
+    """(prefix, final): attractor-seed expansion under a size limit 1..max_size on a fresh diagram and after an earlier limited call."""
+    prefixes = [[], [["bfs", None, 0, None]], [["bfs", None, 1, None]], [["min", None, 3, False]], [["dfs", None, 1, None]], [["succ", 0], ["succ", 1]]]
+    return [(pre, ["aseeds", k]) for pre in prefixes for k in range(1, max_size + 1)]
+
+
+def random_limited_history(rng: random.Random, names):
+    """Seeded variant: 0-2 limited plain calls, then a stack-limited dfs or a size-limited attractor-seed expansion."""
+    pre = random_history(rng.randrange(1 << 30), names, rng.randint(0, 2), ["bfs", "bfs", "dfs", "succ", "min", "aseeds"])
+    final = ["dfs", None, rng.randint(0, 4), None] if rng.random() < 0.5 else ["aseeds", rng.randint(1, 12)]
+    return pre, final
+
+
 # ---- (4) ties between minimal source blocks whose variable names interleave alphabetically -------------------------
 def tie_net(names_a, names_b, down=None, module: str = "switch", names_c=None) -> str:
     def mod(x, y):
